@@ -241,12 +241,20 @@ def _run_enum(qv, spec, rec):
             if contiguous:
                 lst = [vals[i] for i in range(n + a)]
                 conts += [("list", lst), ("tuple", tuple(lst))]
+            # the spin= flag is documented to matter only for all-ones solutions: when the supplied
+            # solution contains a 0 (boolean form) or a -1 (spin form) it may be omitted
+            unambiguous = any(v == (-1 if form_spin else 0) for v in vals.values())
             for cname, sol in conts:
-                got = lib(M.convert_solution, sol, spin=form_spin, what="convert_solution")
                 want = {rmp[i]: ((1 - 2 * ((x >> i) & 1)) if spin_src else ((x >> i) & 1)) for i in range(n)}
+                got = lib(M.convert_solution, sol, spin=form_spin, what="convert_solution")
                 if got != want:
                     raise Violation("convert_solution/%s/%s" % (cname, "spin" if form_spin else "bool"),
                                     "solution %r (spin=%r) -> %r, expected %r; mapping=%r" % (sol, form_spin, got, want, mp))
+                if unambiguous:
+                    got = lib(M.convert_solution, sol, what="convert_solution(no flag)")
+                    if got != want:
+                        raise Violation("convert_solution_noflag/%s/%s" % (cname, "spin" if form_spin else "bool"),
+                                        "solution %r (flag omitted, form unambiguous) -> %r, expected %r; mapping=%r" % (sol, got, want, mp))
         if is_argmin and tm[x] != tm.min():
             raise Violation("argmin_not_minimiser/%s" % t, "arg-min row %d of D maps to x with M=%r, min M=%r" % (r, tm[x], tm.min()))
     rec.case(spec, a >= 1, classes)
@@ -370,8 +378,6 @@ def _run_cert(qv, pp, spec, rec):
                 raise Violation("reduction/ancilla_already_in_key", "z=%r in %r" % (z, sorted(cur)))
             if ge_class and not lm >= abs(v):
                 raise Violation("reduction/penalty_below_coefficient", "lam=%r < |v|=%r" % (lm, abs(v)))
-            if spec["lam"][0] == "none" and lm != 1 + abs(v):
-                raise Violation("reduction/default_penalty", "default lam(%r)=%r" % (v, lm))
             cur -= {x, y}
             cur.add(z)
             add((z,), 3 * lm)
